@@ -76,10 +76,10 @@ func CoqHop(op Op, res OpResult) string {
 		if op.Thr != 0 {
 			t = lib.Some(lib.Z(op.Thr))
 		}
-		return "(HPut " + CoqSid(op.Name) + " " + lib.Z(op.From) + " " + lib.Z(op.Until) + " " +
+		return "(HPut " + CoqSid(op.Name) + " " + lib.Z(op.From) + " " + lib.Z(op.CeilUntil()) + " " +
 			treeu.CoqStacks(op.Stacks) + " " + CoqMeta(op) + " " + t + " " + lib.Bool(res.Err == "") + ")"
 	case "get":
-		return "(HGet " + CoqSid(op.Name) + " " + lib.Z(op.From) + " " + lib.Z(op.Until) + " " + CoqGet(res.Get) + ")"
+		return "(HGet " + CoqSid(op.Name) + " " + lib.Z(op.From) + " " + lib.Z(op.CeilUntil()) + " " + CoqGet(res.Get) + ")"
 	case "delete":
 		return "(HDelete " + CoqSid(op.Name) + ")"
 	case "retention":
